@@ -61,10 +61,6 @@ def canonLines (ls : List Line) : List Line :=
   ((ls.map (fun l => rtrim (ltrim l))).filter (fun l => !l.isEmpty)).filter
     (fun l => !("import ".toList.isPrefixOf l))
 
-/-- final state of the tracking import after the recorded actions -/
-def applyImports (present : Bool) (acts : List ImportAct) : Bool :=
-  acts.foldl (fun p a => match a with | .add => true | .delete => false | .keep => p) present
-
 def handleTextFile (toks : List String) : Option String :=
   match toks with
   -- cleanfile <lines…>  →  <changed> <canonical lines…>     (CleanExecutor.prepareContent)
@@ -76,6 +72,44 @@ def handleTextFile (toks : List String) : Option String :=
     let p := patchLines (m == "1") (ls.map decodeTok)
     if !p.updated then some "not-updated"
     else some s!"{b2s p.changed} {b2s (applyImports (imp == "1") p.imports)} {encodeLines (canonLines p.lines)}"
+  -- judge:cleanfile <lines…> | <changed> <canonical lines…>     (C06 on the real prepareContent)
+  | "judge:cleanfile" :: rest =>
+    let (inp, out) := splitBar rest
+    match out with
+    | ch :: ols =>
+      let inp := inp.map decodeTok
+      let ols := ols.map decodeTok
+      match parseItems inp with
+      | none => some "skip"
+      | some items =>
+        let want := canonLines (flatten (items.filter (fun it => it.kind.isNone)))
+        let why := (if ols == want then "" else " C06:user-lines-differ-or-artefact-lines-left")
+          ++ (if ols.all plain then "" else " C06:marker-line-left")
+          ++ (if (ch == "1") == items.any (fun it => it.kind.isSome) then "" else " C06:changed-flag")
+        some (if why.isEmpty then "ok" else "bad" ++ why)
+    | [] => some "bad C06:no-answer"
+  -- judge:patchfile <isMain> <import present> <lines…> | not-updated | error … | <changed> <import after> <canonical lines…>
+  | "judge:patchfile" :: m :: imp :: rest =>
+    let (inp, out) := splitBar rest
+    let inp := inp.map decodeTok
+    let isMain := m == "1"
+    match parseItems inp with
+    | none => some "skip"
+    | some items =>
+      let upd := items.any (fun it => isK .delete it || isK .insert it || isK .generate it || (isMain && isK .main it))
+      match out with
+      | ["not-updated"] => some (if upd then "bad C10:file-with-markers-not-rewritten" else "ok")
+      | "error" :: _ => some "bad C10:well-formed-arrangement-rejected"
+      | ch :: hi :: ols =>
+        let ols := ols.map decodeTok
+        let want := canonLines (flatten (patchExpected isMain items))
+        let why := (if ols == want then "" else " C10:blocks-or-user-lines-differ")
+          ++ (if upd then "" else " C10:file-without-markers-rewritten")
+          ++ (if (ch == "1") == items.any (fun it => isK .delete it || isK .insert it) then "" else " C10:changed-flag")
+          ++ (if !importConsistent isMain (imp == "1") items || (hi == "1") == importExpected isMain items then ""
+              else " C10:tracking-import-does-not-match-the-blocks")
+        some (if why.isEmpty then "ok" else "bad" ++ why)
+      | _ => some "bad C10:no-answer"
   | _ => none
 
 end GoatSpec.Drv
